@@ -893,6 +893,111 @@ theorem funcstmt_good' (cs : Bool) (st : Stmt) : ∀ (brk cont : String) (c : SC
         obtain ⟨name, j, h1, h2⟩ := ok1 hc
         exact ⟨name, j, by unf; rw [c3]; exact h1, by unf; omega⟩
 
+  | callp dst rt fn pargs args =>
+    intro brk cont c hj0 _
+    have hj : c.jump = none := by
+      rcases hj0 with h | h
+      · exact h
+      · simp [Stmt.startsLabel] at h
+    clear hj0
+    obtain ⟨l1, b1, lab1, cur1, ok1⟩ := lowerArgs_good cs c.slots args c.ctx
+    simp only [funcstmt, funcopen_none hj, List.nil_append]
+    generalize hla : lowerArgs cs c.slots args c.ctx = la at l1 b1 lab1 cur1 ok1 ⊢
+    unf at l1 b1
+    cases dst with
+    | none =>
+      refine ⟨by unf; omega, by unf; omega, ?_, ?_, ?_, fun _ => hj,
+        fun new h => sorted_of_eq (new' := []) (by rw [List.append_nil]; exact h) List.Pairwise.nil,
+        [], by simp, rfl, by simp, rfl⟩
+      · simp only [itemLabels_append, itemLabels, List.append_nil]
+        exact lab1.weaken (by intro j h; unf at h ⊢; omega)
+      · intro ol pre hp
+        rw [← List.append_assoc, curOf_ins]
+        exact cur1 ol pre hp
+      · intro hc
+        obtain ⟨name, j, h1, h2⟩ := ok1 hc
+        exact ⟨name, j, h1, h2⟩
+    | some d =>
+      obtain ⟨i, t⟩ := d
+      have s3 : Straight ⟨la.2.2.lastid + 1, la.2.2.blockid, la.2.2.cur⟩
+          (if t = rt then ⟨[], .tmp (tmpName (la.2.2.lastid + 1)), ⟨la.2.2.lastid + 1, la.2.2.blockid, la.2.2.cur⟩⟩
+           else convert cs ⟨la.2.2.lastid + 1, la.2.2.blockid, la.2.2.cur⟩ t rt
+            (.tmp (tmpName (la.2.2.lastid + 1)))) := by
+        split
+        · exact Straight.refl _ _
+        · exact convert_straight _ _ _ _ _
+      dsimp only
+      generalize hov : (if t = rt then (⟨[], .tmp (tmpName (la.2.2.lastid + 1)),
+          ⟨la.2.2.lastid + 1, la.2.2.blockid, la.2.2.cur⟩⟩ : Out)
+          else convert cs ⟨la.2.2.lastid + 1, la.2.2.blockid, la.2.2.cur⟩ t rt
+            (.tmp (tmpName (la.2.2.lastid + 1)))) = ov at s3 ⊢
+      have l3 := s3.lastid; have b3 := s3.blockid; have c3 := s3.cur
+      dsimp only at l3 b3 c3
+      refine ⟨by unf; omega, by unf; omega, ?_, ?_, ?_, fun _ => hj,
+        fun new h => sorted_of_eq (new' := []) (by rw [List.append_nil]; exact h) List.Pairwise.nil,
+        [], by simp, rfl, by simp, rfl⟩
+      · simp only [itemLabels_append, itemLabels, storeIns, itemLabels_allIns _ s3.allIns, List.append_nil]
+        exact lab1.weaken (by intro j h; unf at h ⊢; omega)
+      · intro ol pre hp
+        simp only [← List.append_assoc, storeIns]
+        rw [curOf_ins, curOf_append_allIns _ _ _ s3.allIns, curOf_ins]
+        unf
+        rw [c3]
+        exact cur1 ol pre hp
+      · intro hc
+        obtain ⟨name, j, h1, h2⟩ := ok1 hc
+        exact ⟨name, j, by unf; rw [c3]; exact h1, by unf; omega⟩
+
+  | pload dst dt k t w c0 idx =>
+    intro brk cont c hj0 _
+    have hj : c.jump = none := by
+      rcases hj0 with h | h
+      · exact h
+      · simp [Stmt.startsLabel] at h
+    clear hj0
+    simp only [funcstmt, funcopen_none hj, List.nil_append]
+    have s1 := funcinst_straight c.ctx (.load .l) .l [.tmp (tmpName (c.slots.getD k 0))]
+    generalize hop : funcinst c.ctx (.load .l) .l [.tmp (tmpName (c.slots.getD k 0))] = op at s1 ⊢
+    have g := funcexpr2_good cs c.slots (offOf t idx) op.ctx
+    generalize hoo : funcexpr2 cs c.slots (offOf t idx) op.ctx = oo at g ⊢
+    have s3 := funcinst_straight oo.ctx .add .l [op.val, oo.val]
+    generalize hoa : funcinst oo.ctx .add .l [op.val, oo.val] = oa at s3 ⊢
+    have s4 := funcinst_straight oa.ctx (.load (loadOf cs t)) (cls t) [oa.val]
+    generalize hol : funcinst oa.ctx (.load (loadOf cs t)) (cls t) [oa.val] = ol at s4 ⊢
+    have s5 : Straight ol.ctx (if dt = t then ⟨[], ol.val, ol.ctx⟩ else convert cs ol.ctx dt t ol.val) := by
+      split
+      · exact Straight.refl _ _
+      · exact convert_straight _ _ _ _ _
+    generalize hov : (if dt = t then (⟨[], ol.val, ol.ctx⟩ : Out) else convert cs ol.ctx dt t ol.val) = ov
+      at s5 ⊢
+    have l1 := s1.lastid; have b1 := s1.blockid; have c1 := s1.cur
+    have l2 := g.lastid; have b2 := g.blockid
+    have l3 := s3.lastid; have b3 := s3.blockid; have c3 := s3.cur
+    have l4 := s4.lastid; have b4 := s4.blockid; have c4 := s4.cur
+    have l5 := s5.lastid; have b5 := s5.blockid; have c5 := s5.cur
+    simp only [ctx_lastid, ctx_blockid, ctx_cur] at l1 b1 c1
+    refine ⟨by unf; omega, by unf; omega, ?_, ?_, ?_, fun _ => hj,
+      fun new h => sorted_of_eq (new' := []) (by rw [List.append_nil]; exact h) List.Pairwise.nil,
+      [], by simp, rfl, by simp, rfl⟩
+    · simp only [itemLabels_append, itemLabels, storeIns, itemLabels_allIns _ s1.allIns,
+        itemLabels_allIns _ s3.allIns, itemLabels_allIns _ s4.allIns, itemLabels_allIns _ s5.allIns,
+        List.append_nil, List.nil_append]
+      exact g.labels.weaken (by intro j h; unf at h ⊢; omega)
+    · intro ol' pre hp
+      simp only [← List.append_assoc, storeIns]
+      rw [curOf_ins, curOf_append_allIns _ _ _ s5.allIns, curOf_append_allIns _ _ _ s4.allIns,
+        curOf_append_allIns _ _ _ s3.allIns]
+      unf
+      rw [c5, c4, c3]
+      refine g.cur ol' _ ?_
+      rw [curOf_append_allIns _ _ _ s1.allIns, hp, c1]
+    · intro hc
+      have hc1 : CurOK op.ctx := by
+        obtain ⟨name, j, h1, h2⟩ := hc
+        simp only [ctx_cur, ctx_blockid] at h1 h2
+        exact ⟨name, j, by rw [c1]; exact h1, by omega⟩
+      obtain ⟨name, j, h1, h2⟩ := g.curOK hc1
+      exact ⟨name, j, by unf; rw [c5, c4, c3]; exact h1, by unf; omega⟩
   | adecl i t n xb =>
     intro brk cont c hj0 _
     have hj : c.jump = none := by
